@@ -29,6 +29,15 @@ Theorem C31_decode_rejects_others :
 Proof. exact decode_exact. Qed.
 Print Assumptions C31_decode_rejects_others.
 
+(** Consequences of the two theorems above, stated outright: distinct valid IDs never share
+    an encoding, and an ID has exactly ONE accepted spelling (so string comparison of
+    accepted encodings is ID comparison). *)
+Theorem C31_encode_decode_injective :
+  (forall a b s, a < 2 ^ 64 -> b < 2 ^ 64 -> encode a = Some s -> encode b = Some s -> a = b) /\
+  (forall s1 s2 n, decode s1 = Some n -> decode s2 = Some n -> s1 = s2).
+Proof. split; [exact encode_injective | exact decode_injective]. Qed.
+Print Assumptions C31_encode_decode_injective.
+
 (** Why the guard is needed: the ParseUint part alone ([decode_pu], the code before the
     repair) accepts exactly the 16 hex digits of either case, e.g. "000000000000000A". *)
 Theorem C31_parseuint_part_accepts_either_case :
